@@ -15,6 +15,7 @@ func (u *UseCase) DeleteOld(_ context.Context, txId string, beforeSeq sequence.S
 		return nil
 	}
 
+	verifhook.At("core.deleteOld.lock")
 	tx.Lock()
 	u.allStore.Lock()
 
